@@ -1,11 +1,28 @@
 """Which units decide which property (DESIGN.md 7, appendix D.2)."""
-from . import api_ops, seam, walks, config
+from . import api_ops, seam, walks, config, types_c17, pythonic
 
 VC = ("contract-based deductive verification: verification conditions generated on every run from the real ASTs "
       "(symbolic execution of each function against its sidecar contract, callee contracts at the seams) and "
       "discharged by z3 (cvc5 for z3-unknowns); ")
 
 PROPS = {
+    "C15": {
+        "units": [pythonic.units], "level": "other", "design_ref": "7.15",
+        "technique": VC + "every PyWrapper method executed against a raw client used by contract (symbolic raw results of "
+                     "enumerated container sizes, values of any SNMP class); postconditions: only built-in types (dictionary "
+                     "keys included) and equality with the element-wise pythonisation",
+        "trusted_base": ["x690 pythonize() of the base value classes returns a built-in (assumed; TimeTicks.pythonize verified in C17)",
+                         "x690 ObjectIdentifier(text) / str(oid) contract"],
+    },
+    "C17": {
+        "units": [types_c17.units], "level": "proof", "design_ref": "7.17",
+        "technique": VC + "Counter/Counter64/TimeTicks constructors as integer VCs over all integers; TimeTicks.pythonize "
+                     "(float code) through a sound real relaxation of IEEE-754 double arithmetic and CPython's timedelta "
+                     "algorithm; IpAddress round trip; registration constants as a contract on data",
+        "trusted_base": ["datetime.timedelta, ipaddress.ip_address, int.to_bytes/from_bytes (assumed contracts, stated in stdlib.py)",
+                         "x690 Integer/X690Type constructors executed from the x690 source",
+                         "x690 Integer.encode_raw/decode_raw round trip: bounded stand-in (enumeration), not proved"],
+    },
     "C18": {
         "units": [config.units, seam.units], "level": "proof", "design_ref": "7.18",
         "technique": VC + "configure, reconfigure (an @contextmanager function executed with an ARBITRARY block at its yield: "
